@@ -47,7 +47,7 @@ def r1(ctx):
         ctx.used_body(key)
         lv = eng.tabulate(key)
         ok = len(lv) == 1 and lv[0].ret[0] == "app" and lv[0].ret[1] == f"<{SCORE} as core::cmp::PartialOrd>::{op}" and \
-            [a[1] if a[0] == "refv" else a for a in lv[0].ret[2]] == [("param", 0, "score"), ("param", 1, "new")]
+            [a[1] if a[0] == "refv" else a for a in lv[0].ret[2]] == [("param", 0, "a0"), ("param", 1, "a1")]
         ctx.ob(f"{pol}::is_better", ok, f"{key} = {[T.show(l.ret) for l in lv]}; expected score {'<' if op == 'lt' else '>'} new", site=P.body(key).get("def_span"), sample=f"score.{op}(new)")
     cut = {"White": ("alpha", 0, "max"), "Black": ("beta", 1, "min")}
     for pol, (which, idx, fn) in cut.items():
@@ -144,6 +144,25 @@ def color_switches(P):
                 continue
             l = t["d"]["p"]["l"]
             defs = k2.local_defs(body, l)
+            if len(defs) == 1 and defs[0][0] == "call":
+                # `if colour == Color::X` / `!=`: a two-way branch on a colour as well
+                d = k2.describe_operand(P, body, t["d"])
+                if d[0] == "call" and (d[1].endswith("color::Color as core::cmp::PartialEq>::eq") or d[1].endswith("color::Color as core::cmp::PartialEq>::ne")):
+                    variants = []
+                    for a in d[2]:
+                        x = a
+                        while isinstance(x, tuple) and x and x[0] in ("ref", "proj"):
+                            x = x[1]
+                        pv = k2.promoted_value(P, x[1]) if isinstance(x, tuple) and x and x[0] == "promoted" else None
+                        if pv and pv[0] == "variant" and pv[1] == COLOR:
+                            variants.append(pv[2])
+                    if len(variants) == 1 and len(t["tg"]) == 1 and int(t["tg"][0][0]) == 0:
+                        other = [n for n in cd.values() if n != variants[0]][0]
+                        yes, no = t["o"], t["tg"][0][1]
+                        if d[1].endswith("::ne"):
+                            yes, no = no, yes
+                        out.append((key, bi, {variants[0]: yes, other: no}))
+                continue
             if len(defs) != 1 or defs[0][0] != "stmt":
                 continue
             r = defs[0][2]["r"]
@@ -193,9 +212,10 @@ def r2(ctx):
     named = ["chess_bitboard::color::Color::enpassant_capture_rank", "chess_bitboard::color::Color::enpassant_pawn_rank", "chess_lookup::pawn_quiets",
              "<chess_movegen::iter::pieces::Pawn as chess_movegen::iter::pieces::PieceType>::legals", ENG + "Engine::search"]
     for n in named:
-        ctx.ob(f"named instance {T.short(n)[:50]}", n in seen_named, f"expected a match on Color in {n} (anchor)")
-    ab_key = [k for k in seen_named if "Engine::alphabeta" in k]
-    ctx.ob("named instance alphabeta mate score", bool(ab_key), "expected `match P::COLOR` in alphabeta (anchor)")
+        # in the function itself or in a private helper extracted from it
+        ctx.ob(f"named instance {T.short(n)[:50]}", bool(k2.private_closure(P, n) & seen_named), f"expected a branch on Color in {n} or its private helpers (anchor)")
+    ab = P.find_fn("Engine::alphabeta", "chess_engine")
+    ctx.ob("named instance alphabeta mate score", bool(k2.private_closure(P, ab) & seen_named), "expected a branch on P::COLOR in alphabeta or its private helpers (anchor)")
 
 
 def flip_bb(g, bb):
@@ -286,6 +306,14 @@ def r4(ctx):
                     reqs.append(("cmp", v))
                     continue
             th = T.threshold(t, v)
+            is_diff = lambda a_: a_[0] == "bin" and a_[1] == "Sub" and sp_color(a_[2]) == "White" and sp_color(a_[3]) == "Black"
+            if th and is_diff(th[0]):
+                reqs.append(("diffge", th[1], th[2]))        # (white material - black material) >= K, as an if-chain writes the same three-way split
+                continue
+            if t[0] == "bin" and t[1] in ("Eq", "Ne") and ((is_diff(t[2]) and T.is_const(t[3])) or (is_diff(t[3]) and T.is_const(t[2]))):
+                k_ = t[3][1] if T.is_const(t[3]) else t[2][1]
+                reqs.append(("diffeq", k_, bool(v) == (t[1] == "Eq")))
+                continue
             if th and sp_color(th[0]):
                 thresholds.add(th[1])
                 reqs.append(("ge", sp_color(th[0]), th[1], th[2]))
@@ -327,6 +355,10 @@ def r4(ctx):
                 elif r[0] == "ge":
                     x = w if r[1] == "White" else b
                     ok &= (x >= r[2]) == r[3]
+                elif r[0] == "diffge":
+                    ok &= ((w - b) >= r[1]) == r[2]
+                elif r[0] == "diffeq":
+                    ok &= ((w - b) == r[1]) == r[2]
             if ok:
                 hits.append(ret)
         return hits
